@@ -302,3 +302,26 @@ Proof.
     destruct (gdisp_n_prefix v _ _ _ _ _ H) as (more & ->).
     rewrite (skipn_app_exact (acc ++ [x]) more). rewrite <- app_assoc. rewrite (skipn_app_exact acc ([x] ++ more)). reflexivity.
 Qed.
+
+(* the same from the middle of a frame: the reader has consumed part of the current frame (in any
+   state [dlive] allows), the rest of it and the frames of [ms] are unread *)
+Theorem gdisp_mid v w g pre tl ms z m w' : grel v w g -> dmsg (dq_st (gr w)) = None ->
+  dlive v (gr w) pre tl -> frames_of v ms tl ->
+  gdisp v w = Ok (z, m, w') -> (exists x, m = Some x) /\ atframes v (gr w') (length ms).
+Proof.
+  intros Hg Em Hl Hf H. pose proof (stream_of_rel v w g Hg) as Hstream.
+  destruct Hg as (_ & _ & (Hi & Est & Hd & _ & Hmsgs) & _).
+  unfold gdisp in H. rewrite Em in H.
+  destruct (grecv v (gr w)) as [[zf d0]| |] eqn:Eg; [|discriminate|discriminate]. cbn [bind] in H.
+  destruct (grecv_delivers v (g_rs g) pre tl zf d0 Hi Est ltac:(rewrite Hd; exact Hl) ltac:(rewrite Hd; exact Eg)) as (-> & Hc0 & Hu0).
+  cbn [Z.ltb Z.eqb Z.compare] in H.
+  destruct (grecv_sim v (g_rs g) 1%Z d0 Hi Est ltac:(rewrite Hd; exact Eg)) as (rops & Hi0 & Hd0 & _ & Hcase0 & Hns0).
+  destruct (Hns0 ltac:(rewrite Hd; exact Hstream)) as [Hst0 Hs0].
+  assert (Hp0 : pend d0 <> []) by (destruct Hcase0 as [Hs'|[_ [(_ & Hp & _)|(Hz' & _)]]]; [congruence|exact Hp|lia]).
+  destruct (rh_cinv v _ Hi0 Hst0) as (_ & F0 & Hcc0). rewrite Hd0 in Hcc0.
+  destruct (pend_single v F0 d0 Hcc0 Hp0) as (x & _ & Hx).
+  destruct (grecv v d0) as [[z2 d2]| |] eqn:Eg2; [|discriminate|discriminate]. cbn [bind] in H. inversion H; subst z m w'; clear H.
+  split; [exists x; exact Hx|]. cbn [gr].
+  apply (lookahead_frames v (rh_run v (g_rs g) rops) (length ms) z2 d2 Hi0 Hst0 ltac:(rewrite Hd0; exact Hs0)
+           ltac:(exists ms, tl; rewrite Hd0; repeat split; assumption) ltac:(rewrite Hd0; exact Eg2)).
+Qed.
